@@ -370,6 +370,8 @@ def lift(x) -> "Sym":
         return Sym(T.mkITE(x.node, T.ONE, T.ZERO))
     if type(x).__module__ == "numpy" and hasattr(x, "item"):
         return lift(x.item())
+    if hasattr(x, "__sx_scalar__"):
+        return lift(x.__sx_scalar__())          # a 0-d array reads like its value
     raise TypeError(f"cannot lift {type(x).__name__} to a symbolic real")
 
 
